@@ -66,13 +66,15 @@ type Program struct {
 	groundHints   map[string]map[string]string
 	litList       []string
 	extConsts     map[string]bool
+	extErrs       map[string]bool
+	provedDeps    map[string]bool
 }
 
 func LoadProgram(repo string) (*Program, error) {
 	p := &Program{RepoDir: repo, initVals: map[*ssa.Global]SV{}, onceIDs: map[*ssa.Global]int{},
 		touchCache: map[*ssa.Function]map[string]bool{}, touchGlobals: map[*ssa.Function]map[*ssa.Global]bool{},
 		usedDeps: map[string]bool{}, usedContracts: map[string]bool{}, preludeCache: map[bool]string{},
-		verifFiles: map[string]bool{}, extConsts: map[string]bool{}, lits: map[string]string{}}
+		verifFiles: map[string]bool{}, extConsts: map[string]bool{}, extErrs: map[string]bool{}, provedDeps: map[string]bool{}, lits: map[string]string{}}
 	p.Fset = token.NewFileSet()
 	cfg := &packages.Config{
 		Mode:       packages.LoadAllSyntax,
@@ -211,6 +213,18 @@ func (p *Program) prelude(native bool) string {
 	}
 	s += b.String()
 	s += ListAxioms(p.Lang, p.listFacts, p.listsOK)
+	var ees []string
+	for c := range p.extErrs {
+		ees = append(ees, c)
+	}
+	sort.Strings(ees)
+	for _, c := range ees {
+		// assumption: exported sentinel errors of dependency packages are non-nil, pairwise distinct constants
+		s += fmt.Sprintf("(declare-const %s Err)\n(assert (not (= %s nilErr)))\n", c, c)
+	}
+	if len(ees) > 1 {
+		s += "(assert (distinct " + strings.Join(ees, " ") + "))\n"
+	}
 	var ecs []string
 	for c := range p.extConsts {
 		ecs = append(ecs, c)
@@ -293,6 +307,15 @@ func (p *Program) extGlobal(ex *Exec, st *State, g *ssa.Global) SV {
 		}
 	}
 	c := classify(g.Type().(*types.Pointer).Elem())
+	if c.K == KScalar && c.Sort == SErr {
+		// sentinel error of a dependency package (io.EOF, ...): a non-nil constant
+		name := "exterr_" + smtName(g.Pkg.Pkg.Path()+"."+g.Name())
+		if !p.extErrs[name] {
+			p.extErrs[name] = true
+			p.preludeCache = map[bool]string{}
+		}
+		return Scalar(T(SErr, name))
+	}
 	if c.K == KScalar && c.Sort == SInt {
 		name := "ext_" + smtName(g.Pkg.Pkg.Path()+"."+g.Name())
 		if !p.extConsts[name] {
@@ -559,6 +582,23 @@ func (p *Program) touchInstr(in ssa.Instruction, t map[string]bool, gl map[*ssa.
 			add("next")
 		}
 	}
+}
+
+// depFunction finds a function of a dependency package by "pkgname.Func".
+func (p *Program) depFunction(name string) *ssa.Function {
+	k := strings.Index(name, ".")
+	if k < 0 {
+		return nil
+	}
+	pkgName, fn := name[:k], name[k+1:]
+	for _, pk := range p.SSA.AllPackages() {
+		if pk.Pkg.Name() == pkgName && !p.isOurPkg(pk) {
+			if f := pk.Func(fn); f != nil && f.Blocks != nil {
+				return f
+			}
+		}
+	}
+	return nil
 }
 
 func contractFiles(repo string) []string {
